@@ -3,6 +3,7 @@ package gen
 import (
 	"encoding/binary"
 
+	"vh/dict"
 	"vh/prng"
 )
 
@@ -193,6 +194,108 @@ func Hostile(base []byte, r *prng.R, o HostileOpt, emit func(class string, in []
 		}
 		if !out("multi", b) {
 			return
+		}
+	}
+	// ---- classes driven by the value dictionary of the tree under test (harness/dict) ----
+	// the constants an edit introduced (novel) all take part; of the others a PRNG sample
+	ints := append([]uint64(nil), dict.NovelInts...)
+	for i := 0; i < 8 && len(dict.Ints) > 0; i++ {
+		ints = append(ints, dict.Ints[r.Intn(len(dict.Ints))])
+	}
+	// sizes: the input cut or zero-padded to exactly a dictionary value, and to the sizes link layers pad to
+	sizes := []int{46, 60, 64}
+	for _, v := range ints {
+		if v > 0 && v <= uint64(o.MaxExtend) && v <= 65535 {
+			sizes = append(sizes, int(v), int(v)+14)
+		}
+	}
+	for _, m := range sizes {
+		if m == n || m > o.MaxExtend {
+			continue
+		}
+		b := make([]byte, m)
+		copy(b, base)
+		if !out("resize", cp(b)) {
+			return
+		}
+		if o.Fix != nil && m >= 4 {
+			o.Fix(b)
+			if !out("resize+fix", b) {
+				return
+			}
+		}
+	}
+	// a zero tail: everything from k on is padding
+	for _, k := range positions(n, 48, r) {
+		b := cp(base)
+		for j := k; j < n; j++ {
+			b[j] = 0
+		}
+		if !out("zerotail", b) {
+			return
+		}
+	}
+	// dictionary values as 8/16/32-bit fields at (sampled) every offset
+	dpos := positions(n, 96, r)
+	for _, v := range ints {
+		for _, p := range dpos {
+			switch {
+			case v <= 0xff:
+				if base[p] != byte(v) {
+					b := cp(base)
+					b[p] = byte(v)
+					if !out("dict8", b) {
+						return
+					}
+				}
+				fallthrough
+			case v <= 0xffff:
+				if p+2 <= n && binary.BigEndian.Uint16(base[p:]) != uint16(v) {
+					b := cp(base)
+					binary.BigEndian.PutUint16(b[p:], uint16(v))
+					if !out("dict16", b) {
+						return
+					}
+				}
+			case v <= 0xffffffff:
+				if p+4 <= n {
+					b := cp(base)
+					binary.BigEndian.PutUint32(b[p:], uint32(v))
+					if !out("dict32", b) {
+						return
+					}
+				}
+			}
+		}
+	}
+	// byte-sequence literals of the tree written over / spliced into the input, each followed by the truncations
+	// right behind it (a decoder that recognises the sequence reads on from there)
+	toks := dict.NovelTokens
+	if len(toks) == 0 && len(dict.Tokens) > 0 {
+		toks = [][]byte{dict.Tokens[r.Intn(len(dict.Tokens))]}
+	}
+	for _, tk := range toks {
+		for _, p := range positions(n, 64, r) {
+			over := cp(base)
+			if p+len(tk) > len(over) {
+				over = append(over[:p], tk...)
+			} else {
+				copy(over[p:], tk)
+			}
+			ins := append(append(cp(base[:p]), tk...), base[p:]...)
+			for _, b := range [][]byte{over, ins} {
+				if len(b) > 65535 {
+					continue
+				}
+				if !out("token", cp(b)) {
+					return
+				}
+				for k := 0; k <= 8 && p+len(tk)+k < len(b); k++ {
+					if !out("token+trunc", cp(b[:p+len(tk)+k])) {
+						return
+					}
+				}
+			}
 		}
 	}
 	// a valid prefix followed by random bytes
